@@ -40,6 +40,13 @@ structure SpecWorld where
   /-- false once the source was cut while caches existed: a cache may then keep one
   deviating bucket for good (C09), so cache bytes are no longer prescribed exactly -/
   cachesExact : Bool := true
+  /-- the numbers of surviving lines at each cut of the source so far (C09: the bucket straddling
+  such a point, and only that bucket, may deviate in a cache for good) -/
+  tears : List Nat := []
+  snapTears : List (Nat × List Nat) := []
+  /-- true from a successful `new` / `open` until the script touches a file: the caches are then what the
+  session left, so their content is prescribed (bucket for bucket, see `.get`) -/
+  settled : Bool := false
   /-- files the script planted while no series existed (role name, bytes) -/
   stale : List (String × Bytes) := []
   /-- the data file was planted by the script (C07, reverse direction): it conforms to the
@@ -79,6 +86,10 @@ def slackLines (p : Nat) (s e : Bound) (log : List Entry) : Nat :=
   | _, _ => 0
 
 def step (w : SpecWorld) (op : Op) : SpecWorld × String :=
+  -- any op that touches a file behind the library's back ends the state the last session left
+  let w := match op with
+    | .cut .. | .rm .. | .put .. | .damage .. => { w with settled := false }
+    | _ => w
   if w.damaged.isSome && !w.tainted then
     -- C18: one damaged section; only full reads have an expectation
     match op, w.damaged with
@@ -96,7 +107,7 @@ def step (w : SpecWorld) (op : Op) : SpecWorld × String :=
     | .open _ _ caches cb _, _ => ({ w with isOpen := true, caches := caches, cb := cb }, "~none")
     | .restore k, _ =>
       match w.snaps.find? (·.1 == k) with
-      | some (_, c, p, h, l, t, ce) => ({ w with created := c, p := p, hdr := h, log := l, tainted := t, cachesExact := ce, damaged := none, isOpen := false }, "~none")
+      | some (_, c, p, h, l, t, ce) => ({ w with created := c, p := p, hdr := h, log := l, tainted := t, cachesExact := ce, damaged := none, isOpen := false, settled := false, tears := ((w.snapTears.find? (·.1 == k)).map (·.2)).getD [] }, "~none")
       | none => (w, "~none")
     | _, _ => (w, "~none")
   else
@@ -104,7 +115,7 @@ def step (w : SpecWorld) (op : Op) : SpecWorld × String :=
     match op with
     | .restore k =>
       match w.snaps.find? (·.1 == k) with
-      | some (_, c, p, h, l, t, ce) => ({ w with created := c, p := p, hdr := h, log := l, tainted := t, cachesExact := ce, damaged := none, isOpen := false }, "~none")
+      | some (_, c, p, h, l, t, ce) => ({ w with created := c, p := p, hdr := h, log := l, tainted := t, cachesExact := ce, damaged := none, isOpen := false, settled := false, tears := ((w.snapTears.find? (·.1 == k)).map (·.2)).getD [] }, "~none")
       | none => (w, "~none")
     | .close => ({ w with isOpen := false }, "~none")
     | .open .. => ({ w with isOpen := true }, "~none")
@@ -121,14 +132,14 @@ def step (w : SpecWorld) (op : Op) : SpecWorld × String :=
     else if (innerHeader p user).length > 65535 then (w, "~err HeaderTooLarge")
     else if w.stale.any (fun (n, _) => n == "index" || caches.any (fun B => n == s!"c{B}" || n == s!"c{B}i")) then
       (w, "~err AlreadyExists")
-    else ({ w with created := true, p := p, hdr := user, log := [], isOpen := true, caches := caches, cb := none },
+    else ({ w with created := true, p := p, hdr := user, log := [], isOpen := true, caches := caches, cb := none, settled := true, tears := [] },
           s!"= ok p={p} hdr={hexOf user}")
   | .open p hdr caches cb _ =>
     if w.isOpen then (w, "~none") else
     if !w.created then (w, "~err NotFound")
     else if p.isSome && p != some w.p then (w, "~err PayloadSizeChanged")
     else if hdr.isSome && hdr != some w.hdr then (w, "~err Mismatch")
-    else ({ w with isOpen := true, caches := caches, cb := cb }, s!"= ok p={w.p} hdr={hexOf w.hdr}")
+    else ({ w with isOpen := true, caches := caches, cb := cb, settled := true }, s!"= ok p={w.p} hdr={hexOf w.hdr}")
   | .close => ({ w with isOpen := false }, if w.isOpen then "= ok" else "~none")
   | .push ts pl =>
     if !w.isOpen then (w, "~none") else
@@ -207,7 +218,9 @@ def step (w : SpecWorld) (op : Op) : SpecWorld × String :=
       if !w.created then (w, "~none")
       else if len ≥ (dataFile w.p w.hdr w.log).length then (w, "~none")
       else if len < hdrLen w then ({ w with tainted := true }, "~none")
-      else ({ w with log := w.log.take (linesWithin w.p w.log (len - hdrLen w)), cachesExact := false }, "~none")
+      else
+        let n := linesWithin w.p w.log (len - hdrLen w)
+        ({ w with log := w.log.take n, cachesExact := false, tears := n :: w.tears, settled := false }, "~none")
     | _ => (w, "~none")
   | .rm r =>
     if w.isOpen then (w, "~none") else
@@ -247,12 +260,23 @@ def step (w : SpecWorld) (op : Op) : SpecWorld × String :=
         else ({ w with tainted := true }, "~none")
       | none => ({ w with tainted := true }, "~none")
     | _ => ({ w with tainted := true }, "~none")
-  | .get _ => (w, "~none")
+  | .get r =>
+    -- C09, bucket for bucket: a cache left by a session is the cache of one uninterrupted session, except -
+    -- after the source was cut with `n` lines surviving - for the bucket `n / B` straddling that point
+    match r with
+    | .cdata B =>
+      if w.isOpen || !w.created || w.foreign || !w.settled || !w.caches.contains B || B = 0 then (w, "~none")
+      else
+        let hl := (outerHeader (cacheUserHeader "s".toUTF8.toList B)).length
+        let dev := (if w.cachesExact then [] else w.tears.map (· / B)).eraseDups
+        (w, s!"~buckets hdr={hl} p={w.p} dev={",".intercalate (dev.map toString)} " ++ fmtEntries (bucketMeans B (linMean w.p) w.log))
+    | _ => (w, "~none")
   | .save k =>
-    ({ w with snaps := (k, w.created, w.p, w.hdr, w.log, w.tainted, w.cachesExact) :: w.snaps.filter (·.1 != k) }, "~none")
+    ({ w with snaps := (k, w.created, w.p, w.hdr, w.log, w.tainted, w.cachesExact) :: w.snaps.filter (·.1 != k),
+               snapTears := (k, w.tears) :: w.snapTears.filter (·.1 != k) }, "~none")
   | .restore k =>
     match w.snaps.find? (·.1 == k) with
-    | some (_, c, p, h, l, t, ce) => ({ w with created := c, p := p, hdr := h, log := l, tainted := t, cachesExact := ce, isOpen := false }, "~none")
+    | some (_, c, p, h, l, t, ce) => ({ w with created := c, p := p, hdr := h, log := l, tainted := t, cachesExact := ce, isOpen := false, settled := false, tears := ((w.snapTears.find? (·.1 == k)).map (·.2)).getD [] }, "~none")
     | none => (w, "~none")
 
 end BS.SpecW
